@@ -869,6 +869,7 @@ interp!(run_drn, DrN, DrNVec, DrNSlice, DrNSliceMut, DrNRef, DrNRefMut, DrNPtr, 
 interp!(run_drnn, DrNN, DrNNVec, DrNNSlice, DrNNSliceMut, DrNNRef, DrNNRefMut, DrNNPtr, DrNNPtrMut, DrNNIter, DrNNIterMut, yes);
 interp!(run_nfirst, NFirst, NFirstVec, NFirstSlice, NFirstSliceMut, NFirstRef, NFirstRefMut, NFirstPtr, NFirstPtrMut, NFirstIter, NFirstIterMut, yes);
 interp!(run_nfirstf, NFirstF, NFirstFVec, NFirstFSlice, NFirstFSliceMut, NFirstFRef, NFirstFRefMut, NFirstFPtr, NFirstFPtrMut, NFirstFIter, NFirstFIterMut, yes);
+interp!(run_hyg, Hyg, HygVec, HygSlice, HygSliceMut, HygRef, HygRefMut, HygPtr, HygPtrMut, HygIter, HygIterMut, yes);
 interp!(run_n2, N2, N2Vec, N2Slice, N2SliceMut, N2Ref, N2RefMut, N2Ptr, N2PtrMut, N2Iter, N2IterMut, yes);
 interp!(run_zz, ZZ, ZZVec, ZZSlice, ZZSliceMut, ZZRef, ZZRefMut, ZZPtr, ZZPtrMut, ZZIter, ZZIterMut, yes);
 interp!(run_nmid, NMid, NMidVec, NMidSlice, NMidSliceMut, NMidRef, NMidRefMut, NMidPtr, NMidPtrMut, NMidIter, NMidIterMut, yes);
@@ -884,16 +885,16 @@ pub fn shape_desc(name: &str) -> Option<String> {
     Some(match name {
         "One" => d::<One>(), "Two" => d::<Two>(), "Flat4" => d::<Flat4>(), "Heap" => d::<Heap>(),
         "DrH" => d::<DrH>(), "DrN" => d::<DrN>(), "DrNN" => d::<DrNN>(), "DrP" => d::<DrP>(), "PlC" => d::<PlC>(), "NFirst" => d::<NFirst>(), "NFirstF" => d::<NFirstF>(),
-        "N2" => d::<N2>(), "ZZ" => d::<ZZ>(), "NMid" => d::<NMid>(), "NMidF" => d::<NMidF>(), "NLast" => d::<NLast>(), "NLastF" => d::<NLastF>(),
+        "Hyg" => d::<Hyg>(), "N2" => d::<N2>(), "ZZ" => d::<ZZ>(), "NMid" => d::<NMid>(), "NMidF" => d::<NMidF>(), "NLast" => d::<NLast>(), "NLastF" => d::<NLastF>(),
         "Deep" => d::<Deep>(), "DeepF" => d::<DeepF>(), _ => return None })
 }
-pub const SHAPES: &[&str] = &["One", "Two", "Flat4", "Heap", "DrH", "DrN", "DrNN", "DrP", "PlC", "NFirst", "NFirstF", "N2", "ZZ", "NMid", "NMidF", "NLast", "NLastF", "Deep", "DeepF"];
+pub const SHAPES: &[&str] = &["One", "Two", "Flat4", "Heap", "DrH", "DrN", "DrNN", "DrP", "PlC", "NFirst", "NFirstF", "Hyg", "N2", "ZZ", "NMid", "NMidF", "NLast", "NLastF", "Deep", "DeepF"];
 
 pub fn run_shape(name: &str, lines: &[&str], out: &mut String) -> bool {
     match name {
         "One" => run_one(lines, out), "Two" => run_two(lines, out), "Flat4" => run_flat4(lines, out), "Heap" => run_heap(lines, out),
         "DrH" => run_drh(lines, out), "DrN" => run_drn(lines, out), "DrNN" => run_drnn(lines, out), "DrP" => run_drp(lines, out), "PlC" => run_plc(lines, out), "NFirst" => run_nfirst(lines, out), "NFirstF" => run_nfirstf(lines, out),
-        "N2" => run_n2(lines, out), "ZZ" => run_zz(lines, out), "NMid" => run_nmid(lines, out), "NMidF" => run_nmidf(lines, out), "NLast" => run_nlast(lines, out), "NLastF" => run_nlastf(lines, out),
+        "Hyg" => run_hyg(lines, out), "N2" => run_n2(lines, out), "ZZ" => run_zz(lines, out), "NMid" => run_nmid(lines, out), "NMidF" => run_nmidf(lines, out), "NLast" => run_nlast(lines, out), "NLastF" => run_nlastf(lines, out),
         "Deep" => run_deep(lines, out), "DeepF" => run_deepf(lines, out), _ => return false }
     true
 }
